@@ -4,7 +4,7 @@ against it (VERIF_REPO), record the outcome in seeded/<id>/result.json.  /repo i
 import sys, os, json, subprocess, glob, shutil, time
 V = '/verif'
 SCR = os.environ.get('SEED_SCRATCH', '/tmp/repo-seed')
-EXTRA = {'C05-m10': ['C10'], 'C10-m10': ['C04'], 'C02-m10': ['C15'], 'C13-m10': ['C15'], 'C15-m10': ['C09'], 'C02-m7': ['C09'], 'C02-m8': ['C09'], 'C05-m7': ['C10'], 'C10-m8': ['C04'], 'C09-m8': ['C14'], 'C01-m5': ['C08', 'C09'], 'C04-m6': ['C10'], 'C14-m6': ['C08'], 'C15-m6': ['C05'], 'C02-m6': ['C09'], 'C02-m4': ['C09'], 'C03-m2': ['C09'], 'C05-m1': ['C11'], 'C10-m1': ['C04'], 'C10-m2': ['C04'], 'C04-m2': ['C10'], 'C16-m1': ['C15'], 'C13-m1': ['C15'], 'C15-m2': ['C14']}
+EXTRA = {'C10-m11': ['C04'], 'C05-m10': ['C10'], 'C10-m10': ['C04'], 'C02-m10': ['C15'], 'C13-m10': ['C15'], 'C15-m10': ['C09'], 'C02-m7': ['C09'], 'C02-m8': ['C09'], 'C05-m7': ['C10'], 'C10-m8': ['C04'], 'C09-m8': ['C14'], 'C01-m5': ['C08', 'C09'], 'C04-m6': ['C10'], 'C14-m6': ['C08'], 'C15-m6': ['C05'], 'C02-m6': ['C09'], 'C02-m4': ['C09'], 'C03-m2': ['C09'], 'C05-m1': ['C11'], 'C10-m1': ['C04'], 'C10-m2': ['C04'], 'C04-m2': ['C10'], 'C16-m1': ['C15'], 'C13-m1': ['C15'], 'C15-m2': ['C14']}
 ids = sys.argv[1:] or sorted(os.path.basename(d) for d in glob.glob(V + '/seeded/C*'))
 if os.path.exists(SCR):
     shutil.rmtree(SCR)
